@@ -90,6 +90,9 @@ struct FnCfg {
     keep_name: bool,
     no_eager_iter: bool,
     contains_as_loop: bool,
+    /// R3h: `X.iter().any(c)` / `V.contains(&x)` become calls of the verified helpers vx_any / vx_contains
+    helpers: bool,
+    vec_receivers: Vec<String>,
 }
 
 struct R<'a> {
@@ -562,7 +565,7 @@ impl<'a> R<'a> {
                     body = body
                 ))
             }
-            ("any", 1) | ("all", 1) | ("position", 1) => {
+            ("any", 1) | ("all", 1) | ("position", 1) if !(self.fc.helpers && name == "any") => {
                 let p = self.parse_pipeline(&mc.receiver)?;
                 let cl = closure_of(&mc.args[0])?;
                 self.rule("R3:consumer-desugaring");
@@ -579,6 +582,30 @@ impl<'a> R<'a> {
                     init = init,
                     body = body
                 ))
+            }
+            ("any", 1) if self.fc.helpers => {
+                // R3h: `X.iter().any(c)` over a slice / Vec, no adapter in between
+                if let Expr::MethodCall(inner) = strip_paren(&mc.receiver) {
+                    if inner.method == "iter" && inner.args.is_empty() {
+                        if let Expr::Closure(_) = strip_paren(&mc.args[0]) {
+                            self.rule("R3h:any->vx_any");
+                            let recv_text = norm(self.text(inner.receiver.span()));
+                            let recv = self.render_expr(&inner.receiver);
+                            let s = if self.fc.vec_receivers.contains(&recv_text) { format!("({}).as_slice()", recv) } else { recv };
+                            let c = self.render_expr(&mc.args[0]);
+                            return Some(format!("vx_any({}, {})", s, c));
+                        }
+                    }
+                }
+                None
+            }
+            ("contains", 1) if self.fc.helpers => {
+                self.rule("R3h:contains->vx_contains");
+                let recv_text = norm(self.text(mc.receiver.span()));
+                let recv = self.render_expr(&mc.receiver);
+                let s = if self.fc.vec_receivers.contains(&recv_text) { format!("({}).as_slice()", recv) } else { recv };
+                let arg = self.render_expr(&mc.args[0]);
+                Some(format!("vx_contains({}, {})", s, arg))
             }
             ("contains", 1) if self.fc.contains_as_loop => {
                 // R3: `V.contains(&x)` on a Vec / slice: linear search with `==` (what slice::contains does)
@@ -1066,7 +1093,7 @@ impl<'r, 'a, 'ast> Visit<'ast> for V<'r, 'a> {
                 let body = if matches!(&*c.body, Expr::Block(_)) {
                     body
                 } else {
-                    format!("{{ {} }}", body)
+                    format!("{{ /*@M:closure-body@*/ {} }}", body)
                 };
                 self.replace(
                     e.span(),
@@ -1755,6 +1782,8 @@ fn main() {
             keep_name: false,
             no_eager_iter: it["no_eager_iter"].as_bool().unwrap_or(false),
             contains_as_loop: it["contains_as_loop"].as_bool().unwrap_or(false),
+            helpers: it["helpers"].as_bool().unwrap_or(false),
+            vec_receivers: it["vec_receivers"].as_array().map(|a| a.iter().map(|v| v.as_str().unwrap().to_string()).collect()).unwrap_or_default(),
         };
         let opaque_fields: Vec<String> = it["opaque_fields"]
             .as_array()
